@@ -1901,6 +1901,58 @@ def raptor_forwarding(case, rp):
     return dict(confirmed=False, detail='%d raptor forwarding histories hold natively' % len(directed))
 
 
+@builder('utils/component.py:AgentComponent.advance', 'utils/component.py:ClientComponent.advance')
+def advance_wrappers(case, rp):
+    """the real AgentComponent.advance / ClientComponent.advance with the base class
+    advance replaced by a recorder: every argument reaches the base class under its own
+    name; FAILED / CANCELED are published, not pushed, and become the target state"""
+    import itertools
+    import radical.pilot.utils.component as cm
+    rec = []
+    saved = cm.BaseComponent.advance
+    def base(self, things, state=None, publish=True, push=False, qname=None, ts=None, fwd=False, prof=True):
+        rec.append(dict(n=len(things) if isinstance(things, list) else 1, state=state, publish=publish, push=push,
+                        qname=qname, ts=ts, fwd=fwd, prof=prof))
+    cm.BaseComponent.advance = base
+    n = 0
+    try:
+        for cls in (cm.AgentComponent, cm.ClientComponent):
+            for state, publish, push, fwd, prof in itertools.product(('AGENT_EXECUTING', 'FAILED', 'CANCELED', None),
+                                                                     (True, False), (True, False), (True, False, 'default'), (True, False)):
+                n += 1
+                c = object.__new__(cls)
+                c._log, c._prof = Stub(), Stub()
+                things = [{'uid': 't1', 'state': 'NEW'}, {'uid': 't2', 'state': 'NEW'}]
+                kw = dict(publish=publish, push=push, prof=prof)
+                if fwd != 'default': kw['fwd'] = fwd
+                del rec[:]
+                try:
+                    c.advance(things, state, **kw)
+                except Exception as e:
+                    return dict(confirmed=True, detail='%s.advance raised %r' % (cls.__name__, e), input=dict(state=state, **kw))
+                want_fwd = fwd if fwd != 'default' else (cls is cm.AgentComponent)
+                final = state in ('FAILED', 'CANCELED')
+                probs = []
+                if len(rec) != 1: probs.append('the base class advance was called %d times' % len(rec))
+                else:
+                    r = rec[0]
+                    if r['fwd'] != want_fwd: probs.append('the forward flag reaches the base class as %r, the caller said %r' % (r['fwd'], want_fwd))
+                    if r['prof'] != prof:    probs.append('the profiling switch reaches the base class as %r, the caller said %r' % (r['prof'], prof))
+                    if r['state'] != state:  probs.append('state %r reaches the base class as %r' % (state, r['state']))
+                    if final and (r['publish'] is not True or r['push'] is not False):
+                        probs.append('%s is handed on with publish=%r push=%r' % (state, r['publish'], r['push']))
+                    if not final and (r['publish'] != publish or r['push'] != push):
+                        probs.append('publish / push %r / %r reach the base class as %r / %r' % (publish, push, r['publish'], r['push']))
+                if final and any(t.get('target_state') != state for t in things):
+                    probs.append('%s does not become the target state of the things' % state)
+                if probs:
+                    return dict(confirmed=True, detail='%s.advance: %s' % (cls.__name__, '; '.join(probs[:3])),
+                                input=dict(cls=cls.__name__, state=state, **kw), found_by='bounded native enumeration (%d calls)' % n)
+    finally:
+        cm.BaseComponent.advance = saved
+    return dict(confirmed=False, detail='%d wrapper calls hand their arguments on unchanged natively' % n)
+
+
 @builder('raptor/master.py:Master._submit_tasks')
 def master_submit(case, rp):
     """the real Master._submit_tasks on bulks of requests of every mode: executable
